@@ -49,20 +49,25 @@ def with_ellipsis(s, where):
     return {'none': s, 'lead': '...' + s, 'trail': s + '...'}[where]
 
 
-def shapes_for(sub, ell_present):
+def shapes_for(sub, ell_present, ell=ELL):
     """shape of an operand from its subscripts (None if a letter would need two sizes — never happens here)"""
     core = sub.replace('...', '')
     dims = tuple(SIZES[c] for c in core)
     if '...' in sub:
-        return ELL + dims if sub.startswith('...') else dims + ELL
+        return ell + dims if sub.startswith('...') else dims + ell
     return dims
 
 
-def check_string(ctx: Ctx, stream: str, i: int, subs: str, rng) -> None:
+ELLS = [(2,), (), (3, 2), (2, 3), (3, 3), (3,), (1, 2), (3, 3, 2)]
+
+
+def check_string(ctx: Ctx, stream: str, i: int, subs: str, rng, force=None) -> None:
     from furax._base.dense import DenseBlockDiagonalOperator as Dense
     st, got = safe(Dense._get_transposed_subscripts, subs)
     rep = ctx.model.ask(['einsum-transpose', subs])
     cfg = {'subscripts': subs}
+    if False:
+        pass
     if (st == 'ok') != (rep[0] == 'ok') or (st == 'ok' and got != rep[1]) or (st != 'ok' and rep[1] != st):
         ctx.disagree(stream, i, f'transposed subscripts of {subs!r}: implementation {st} {got if st == "ok" else ""}, '
                      f'model {rep}', cfg)
@@ -72,10 +77,17 @@ def check_string(ctx: Ctx, stream: str, i: int, subs: str, rng) -> None:
     parts = subs.replace('->', ',').split(',')
     if len(parts) == 3 and all(set(p.replace('...', '')) <= set('ijk') for p in parts):
         L, R, O = parts
-        bshape, xshape = shapes_for(L, True), shapes_for(R, True)
+        # the dimensions an ellipsis stands for: none, one or several (sizes that coincide with the named axes
+        # included); the blocks may carry them or leave them to broadcasting (2-d blocks shared by all batch entries)
+        ell = rng.choice([(2,)] + ELLS[:7])
+        bell = ell if rng.random() < 0.6 else ()
+        if force is not None:
+            ell, bell = force
+        bshape, xshape = shapes_for(L, True, bell), shapes_for(R, True, ell)
         if len(bshape) >= 2:
             blocks = np.array([rng.randint(-2, 3) for _ in range(int(np.prod(bshape)))], dtype=np.float64).reshape(bshape)
             x = np.array([rng.randint(-2, 3) for _ in range(int(np.prod(xshape)))], dtype=np.float64).reshape(xshape)
+            cfg = {**cfg, 'blocks_shape': bshape, 'leaf_shape': xshape}
             stn, want = safe(np.einsum, subs, blocks, x)
             sto, op = safe(lambda: Dense(jnp.asarray(blocks, dtype=jnp.float32),
                                          jax.ShapeDtypeStruct(xshape, jnp.float32), subs))
@@ -98,7 +110,8 @@ def check_string(ctx: Ctx, stream: str, i: int, subs: str, rng) -> None:
                             ctx.fail(stream, i, 'einsum-transpose-not-adjoint' + (':repeated-letter' if rep_letters else ''),
                                      f'{subs!r} → {got!r}: dense(op.T) is not dense(op).T', cfg)
                         ctx.count('adjoint-checked')
-    ctx.case(subs, accepted, sample={'subscripts': subs, 'transposed': got if accepted else st})
+    ctx.case(subs if force is None else f'{subs}:{force}', accepted,
+             sample={'subscripts': subs, 'transposed': got if accepted else st})
 
 
 MALFORMED = ['ij', 'ij,j', 'ij,j,k->i', 'ij->i', 'ij,j->i->k', ',->', 'ij,j->', 'ij,,j->i', '->ij,j']
@@ -120,3 +133,13 @@ def run(ctx: Ctx) -> None:
     for i, s in enumerate(strings):
         if ctx.want('string', i):
             check_string(ctx, 'string', i, s, ctx.rng('string', i))
+    # the constructor's default string and the documented ones, with every choice of batch dimensions (none, one,
+    # several, sizes coinciding with the named axes) and blocks with or without their own batch dimensions
+    docs = ['ij...,j...->i...', 'ji...,j...->i...', 'kij...,kj...->ki...', 'ij,j...->i...', '...ij,...j->...i']
+    k = 0
+    for s in docs:
+        for ell in ELLS:
+            for bell in (ell, ()):
+                if ctx.want('default', k):
+                    check_string(ctx, 'default', k, s, ctx.rng('default', k), force=(ell, bell))
+                k += 1
